@@ -654,9 +654,146 @@ fn run_long(ctx: &mut Ctx) {
     );
 }
 
+/// One image of more than 2^32 pixels (65 536 x 65 544 U8, 4.3 GB of lazily zeroed memory of which only a few pages are
+/// touched): offsets of bands beyond 2^32. Parts are judged by the *addresses* of their first and last rows, which says
+/// exactly which pixels they expose without reading them. If the host refuses the allocation the step observes nothing
+/// and says so (no verdict either way).
+fn run_huge(ctx: &mut Ctx) {
+    use fr::pixels::U8;
+    const W: u32 = 65_536;
+    const H: u32 = 65_544;
+    ctx.drive(
+        1,
+        |_, _| Some(()),
+        |_| json!({"view": "TypedImage / TypedImageRef / cropped, U8", "size": [W, H]}),
+        |_, stats, viols| {
+            let n = W as usize * H as usize;
+            let layout = std::alloc::Layout::array::<u8>(n).unwrap();
+            let base = unsafe { std::alloc::alloc_zeroed(layout) };
+            if base.is_null() {
+                stats.count("huge_allocation_refused", 1);
+                stats.notes.push("the host refused 4.3 GB of zeroed memory: the > 2^32-pixel image was not exercised".into());
+                return;
+            }
+            stats.nontrivial(&json!(["huge", W, H]));
+            stats.count("huge_images", 1);
+            let b0 = base as usize;
+            let mut fail = |kind: &str, msg: String| {
+                if viols.len() < 4 {
+                    viols.push(Viol::new(kind, format!("U8 {}x{}: {}", W, H, msg)).sig(json!({"view": "huge"})));
+                }
+            };
+            // (first row address, last row address, row length, rows) of a view, relative to the buffer
+            fn span<V: ImageView<Pixel = fr::pixels::U8>>(v: &V, b0: usize) -> (usize, usize, usize, u32) {
+                let h = v.height();
+                let first = v.iter_rows(0).next().map(|r| (r.as_ptr() as usize - b0, r.len()));
+                let last = if h > 0 { v.iter_rows(h - 1).next().map(|r| r.as_ptr() as usize - b0) } else { None };
+                (first.map_or(usize::MAX, |f| f.0), last.unwrap_or(usize::MAX), first.map_or(0, |f| f.1), h)
+            }
+            let triples: [(u32, u32, u32); 7] = [(65_536, 8, 2), (65_535, 9, 3), (0, H, 4), (1, 1, 1), (65_537, 7, 7), (40_000, 25_544, 5), (H - 1, 1, 1)];
+            {
+                let pixels = unsafe { std::slice::from_raw_parts_mut(base as *mut U8, n) };
+                let mut img = TypedImage::<U8>::from_pixels_slice(W, H, pixels).unwrap();
+                // read-only height and width splits of TypedImage, of a TypedImageRef-like cropped view over it, and mutable splits
+                for &(start, size, parts) in &triples {
+                    stats.count("huge_splits", 3);
+                    let check = |what: &str, got: Vec<(usize, usize, usize, u32)>, x0: usize, y0: u32, w: usize, fail: &mut dyn FnMut(&str, String)| {
+                        let sizes: Vec<u32> = got.iter().map(|g| g.3).collect();
+                        if got.len() != parts as usize || balanced(&sizes, size, parts).is_err() {
+                            fail("part_size", format!("{} split(start={}, size={}, parts={}): extents {:?}", what, start, size, parts, sizes));
+                            return;
+                        }
+                        let mut row = y0 as usize + start as usize;
+                        for (i, g) in got.iter().enumerate() {
+                            let (f, l) = (row * W as usize + x0, (row + g.3 as usize - 1) * W as usize + x0);
+                            if g.0 != f || g.1 != l || g.2 != w {
+                                fail("wrong_pixel", format!("{} split(start={}, size={}, parts={}): part {} exposes rows at byte offsets {}..{} (row length {}), its band lies at {}..{} (row length {})", what, start, size, parts, i, g.0, g.1, g.2, f, l, w));
+                                return;
+                            }
+                            row += g.3 as usize;
+                        }
+                    };
+                    match img.split_by_height(start, nz(size), nz(parts)) {
+                        Some(ps) => check("TypedImage", ps.iter().map(|p| span(p, b0)).collect(), 0, 0, W as usize, &mut fail),
+                        None => fail("unexpected_none", format!("TypedImage split_by_height(start={}, size={}, parts={}) returned None", start, size, parts)),
+                    }
+                    {
+                        let crop = TypedCroppedImage::from_ref(&img, 5, 3, 1000, H - 3).unwrap();
+                        if start + size <= H - 3 {
+                            match crop.split_by_height(start, nz(size), nz(parts)) {
+                                Some(ps) => check("TypedCroppedImage", ps.iter().map(|p| span(p, b0)).collect(), 5, 3, 1000, &mut fail),
+                                None => fail("unexpected_none", format!("cropped split_by_height(start={}, size={}, parts={}) returned None", start, size, parts)),
+                            }
+                        }
+                    }
+                    match img.split_by_height_mut(start, nz(size), nz(parts)) {
+                        Some(ps) => check("TypedImage (mutable)", ps.iter().map(|p| span(p, b0)).collect(), 0, 0, W as usize, &mut fail),
+                        None => fail("unexpected_none", format!("TypedImage split_by_height_mut(start={}, size={}, parts={}) returned None", start, size, parts)),
+                    }
+                }
+                // column bands of the same image: every part spans all rows
+                for &(start, size, parts) in &[(0u32, W, 3u32), (65_000, 536, 5), (1, 65_535, 65_535)] {
+                    stats.count("huge_splits", 2);
+                    let checkw = |what: &str, got: Vec<(usize, usize, usize, u32)>, fail: &mut dyn FnMut(&str, String)| {
+                        let sizes: Vec<u32> = got.iter().map(|g| g.2 as u32).collect();
+                        if got.len() != parts as usize || balanced(&sizes, size, parts).is_err() {
+                            fail("part_size", format!("{} split_by_width(start={}, size={}, parts={}): extents {:?}", what, start, size, parts, &sizes[..sizes.len().min(8)]));
+                            return;
+                        }
+                        let mut col = start as usize;
+                        for (i, g) in got.iter().enumerate() {
+                            if g.0 != col || g.1 != (H as usize - 1) * W as usize + col || g.3 != H {
+                                fail("wrong_pixel", format!("{} split_by_width(start={}, size={}, parts={}): part {} starts at byte offset {} and ends at row offset {}, expected column {}", what, start, size, parts, i, g.0, g.1, col));
+                                return;
+                            }
+                            col += g.2;
+                        }
+                    };
+                    match img.split_by_width(start, nz(size), nz(parts)) {
+                        Some(ps) => checkw("TypedImage", ps.iter().map(|p| span(p, b0)).collect(), &mut fail),
+                        None => fail("unexpected_none", format!("TypedImage split_by_width(start={}, size={}, parts={}) returned None", start, size, parts)),
+                    }
+                    match img.split_by_width_mut(start, nz(size), nz(parts)) {
+                        Some(ps) => checkw("TypedImage (mutable)", ps.iter().map(|p| span(p, b0)).collect(), &mut fail),
+                        None => fail("unexpected_none", format!("TypedImage split_by_width_mut(start={}, size={}, parts={}) returned None", start, size, parts)),
+                    }
+                }
+            }
+            {
+                let pixels = unsafe { std::slice::from_raw_parts(base as *const U8, n) };
+                let img = TypedImageRef::<U8>::new(W, H, pixels).unwrap();
+                for &(start, size, parts) in &triples {
+                    stats.count("huge_splits", 1);
+                    match img.split_by_height(start, nz(size), nz(parts)) {
+                        Some(ps) => {
+                            let mut row = start as usize;
+                            for (i, p) in ps.iter().enumerate() {
+                                let g = span(p, b0);
+                                if g.0 != row * W as usize || g.2 != W as usize {
+                                    fail("wrong_pixel", format!("TypedImageRef split_by_height(start={}, size={}, parts={}): part {} starts at byte offset {}, its band at {}", start, size, parts, i, g.0, row * W as usize));
+                                    break;
+                                }
+                                row += g.3 as usize;
+                            }
+                            if row != (start + size) as usize {
+                                fail("part_size", format!("TypedImageRef split_by_height(start={}, size={}, parts={}): parts cover {} rows", start, size, parts, row - start as usize));
+                            }
+                        }
+                        None => fail("unexpected_none", format!("TypedImageRef split_by_height(start={}, size={}, parts={}) returned None", start, size, parts)),
+                    }
+                }
+            }
+            unsafe { std::alloc::dealloc(base, layout) };
+        },
+    );
+}
+
 pub fn run(ctx: &mut Ctx) {
     if ctx.sub == "long" {
         return run_long(ctx);
+    }
+    if ctx.sub == "huge" {
+        return run_huge(ctx);
     }
     // exhaustive over view sizes 0..=max x 0..=max, all kinds, all placements from a small margin set
     let max: u32 = if ctx.is_miri { 3 } else if ctx.quick() { 12 } else { 34 };
